@@ -550,7 +550,7 @@ fn main() {
             "src/sync/poison.rs",
         ];
     }
-    let stalls = std::env::var("MAYV_STALL").is_ok();
+    let stalls = std::env::var("MAYV_STALL").is_ok() || std::env::var("MAYV_STALL_AT").is_ok();
     let nw = envn("MAYV_WAITERS", 3);
     let rounds = envn("MAYV_ROUNDS", 2);
     let nn = envn("MAYV_NOTIFIERS", 1);
